@@ -1,0 +1,1 @@
+//! Verification doors: socks (cfg(trusttunnel_verif) only)
